@@ -18,7 +18,7 @@ def run(chk, tier):
     from props import c09, c12
     chk.guarded(c09.r_write_hundreds, P, tier)
     chk.guarded(c12.r_offset_writer_map, P, tier)
-    for r in (r_reader_shape, r_offset_bound, r_entry, r_writer, r_year_box, r_fraction_templates, r_ascii, r_absint, r_flow, r_own_ranges, r_fraction_scale, r_fraction_base):
+    for r in (r_reader_shape, r_offset_bound, r_entry, r_writer, r_year_box, r_year_template, r_fraction_templates, r_ascii, r_absint, r_flow, r_own_ranges, r_fraction_scale, r_fraction_base):
         chk.guarded(r, P, tier)
     chk.assume("that the accepted language equals the RFC 3339 grammar for every string, the values returned and the round trip are NOT decided; the grammar side is specs (appendix A.5)")
     return {
@@ -181,6 +181,35 @@ def r_fraction_templates(chk, P, tier):
         diff = [i for i in range(len(ts[1])) if len({ts[k][i] for k in ts}) > 1]
         ok = len(diff) == 1 and (ts[1000000][diff[0]], ts[1000][diff[0]], ts[1][diff[0]]) == (3, 6, 9)
     chk.expect(ok, "widths 3 / 6 / 9", "the fraction templates of write_rfc3339 differ in more than the width, or the widths are not 3 / 6 / 9: %s" % {k: str(v) for k, v in ts.items()}, loc=P.loc(WR))
+
+
+def r_year_template(chk, P, tier):
+    """outside 0..=9999 write_rfc3339 prints the year with an explicit sign padded to at least four digits (`{:+05}`): its format template
+    has the shape of the fraction templates (one placeholder, zero padding) with width 5 at the position where those carry 3 / 6 / 9"""
+    chk.rule("SIB.year_template", "write_rfc3339's signed-year template is a single zero-padded placeholder of width 5 (sign + four digits), read at the position where the fraction templates carry 3 / 6 / 9", floor=1)
+    year, frac = set(), {}
+    for p in Sym(P, WR).paths():
+        for c in p.calls:
+            if not (isinstance(c[1], str) and c[1].endswith("Arguments::<'a>::new") and len(c[2]) >= 2):
+                continue
+            t = c[2][0]
+            while t[0] in ("ref", "deref"):
+                t = t[1]
+            tm = const_of(t)
+            if not isinstance(tm, tuple):
+                continue
+            arg = c[2][1]
+            if any(is_call(x, suffix="::year") for x in walk_terms(arg)):
+                year.add(tm)
+            elif any(is_call(x, suffix="nanosecond") for x in walk_terms(arg)):
+                frac[tm[-3] if len(tm) >= 3 else None] = tm
+    if not year or set(frac) != {3, 6, 9}:
+        raise AnchorLost("write_rfc3339: signed-year template / fraction templates (%d, %s)" % (len(year), sorted(map(str, frac))))
+    f9 = frac[9]
+    for tm in sorted(year):
+        # same length as the bare placeholder of the fraction template (which has a 2-cell literal '.' in front), width cell 5
+        ok = len(tm) == len(f9) - 2 and tm[-3] == 5 and tm[-2:] == f9[-2:] and tm[0] == f9[2]
+        chk.expect(ok, "signed year", "write_rfc3339 prints the signed year with template %s (expected one zero-padded placeholder of width 5 like the fraction's %s)" % (tm, f9), loc=P.loc(WR))
 
 
 def r_writer(chk, P, tier):
